@@ -17,7 +17,9 @@ LEVEL = "exploration"
 ANSI = re.compile(r"\x1b\[[0-9;]*m")
 HEADER = "(import (scheme base) (scheme write))"
 
-FAULTS = ["(car '())", "(undefined-procedure 1)", "(vector-ref (vector 1 2) 5)", "(f0 1 2 3)", "(/ 10 0)", "(5 6)", "nosuch", "(+ 1 'a)", "(set! nosuch2 1)", "(vector-set! '#(1) 0 2)",
+OFFENDER = {"nosuch": "nosuch", "(undefined-procedure 1)": "undefined-procedure", "(cond (#t (undefined-thing)))": "undefined-thing", "(list |my var| nosuch3)": "nosuch3",
+            "(begin |multi\nline| (nosuch4))": "nosuch4"}
+FAULTS = ["(list |my var| nosuch3)", "(begin |multi\nline| (nosuch4))", "(car '())", "(undefined-procedure 1)", "(vector-ref (vector 1 2) 5)", "(f0 1 2 3)", "(/ 10 0)", "(5 6)", "nosuch", "(+ 1 'a)", "(set! nosuch2 1)", "(vector-set! '#(1) 0 2)",
           "(let ((y 1)) (car y))", "(cond (#t (undefined-thing)))", "(map car '(1 2))", "(apply f0 '(1))"]
 SYNTAX = ["(list 1 2))", "(display \"abc", "(list 1 #z)", "(display 2", "'(1 . 2 3)", "(display \"a\\qb\")"]
 
@@ -32,6 +34,9 @@ def gen_program(rng):
     n = rng.randint(3, 12)
     vals = ["42", "-7", "#t", "#f", "'sym", "\"a string\"", "'(1 2 3)", "'(1 (2 \"x\") . 3)", "(list 1 'b \"c\")", "(vector 1 2)", "'()", "#\\a", "1/2", "(+ 1 2)", "(f0)", "counter",
             "(begin (set! counter (+ counter 1)) counter)", "(if (> counter 1) 'many 'few)", "(map (lambda (x) (* x x)) '(1 2 3))", "(let ((a 1) (b 2)) (list a b))"]
+    # string literals that span lines (raw line feeds, blanks and tabs before and after them) and |identifiers| with blanks / line feeds
+    vals += ["\"two  \n\tlines\"", "\"trailing blank \nnext\t\n  indented\"", "\"\n\"", "|my var|", "(+ |my var| 1)", "|multi\nline|", "(list |my var| |multi\nline|)"]
+    forms += ["(define |my var| 3)", "(define |multi\nline| 4)"]
     if use_lib:
         vals += ["lib-value", "(lib-add 1 2)"]
     for _ in range(n):
@@ -49,10 +54,10 @@ def gen_program(rng):
     fail, kind = None, None
     c = rng.random()
     if c < 0.4:
-        fail = rng.randint(4, len(forms)); kind = "fault"
+        fail = rng.randint(6, len(forms)); kind = "fault"
         forms.insert(fail, rng.choice(FAULTS))
     elif c < 0.55:
-        fail = rng.randint(4, len(forms)); kind = "syntax"
+        fail = rng.randint(6, len(forms)); kind = "syntax"
         forms.insert(fail, rng.choice(SYNTAX))
     if fail is not None and rng.random() < 0.7:
         forms.insert(fail + 1, "(display \"never printed\")")
@@ -91,7 +96,7 @@ DECOY_SRC = "(define-library (mylib) (import (scheme base)) (export lib-value li
 def render(rng, forms):
     eol = rng.choice(["\n", "\n", "\r\n"])
     final = rng.random() < 0.5
-    sep = lambda: eol * rng.choice([1, 1, 2]) + rng.choice(["", "", "; comment (" + eol, "  "])
+    sep = lambda: rng.choice([eol * rng.choice([1, 1, 2]) + rng.choice(["", "", "; comment (" + eol, "  "])] * 5 + [" ", "  "])       # sometimes two forms share a line
     text = ""
     for i, f in enumerate(forms):
         text += f
@@ -184,6 +189,12 @@ def run(tier, seed):
                 if c["fail"] < len(spans) and not within(loc, spans[c["fail"]][0], spans[c["fail"]][1]):
                     ctx.violation(dict(base, what="LINE:COL of the diagnostic lies outside the failing form", reported=list(loc), form_span=[list(spans[c["fail"]][0]), list(spans[c["fail"]][1])],
                                        dedupe="loc"), replay); continue
+                off = OFFENDER.get(c["forms"][c["fail"]])
+                if off and c["fail"] < len(spans):
+                    toks = [t for t in spans[c["fail"]][2] if t.text == off]
+                    if toks and not any(within(loc, t.start, t.end) for t in toks):
+                        ctx.violation(dict(base, what="LINE:COL of an unbound-variable diagnostic is not at the offending identifier", reported=list(loc),
+                                           token_at=[[list(t.start), list(t.end)] for t in toks], dedupe="loc-token"), replay); continue
         ctx.count("runs_ok"); ctx.count("runs_ok_" + str(c["kind"]))
         ctx.nontriv(key)
     ctx.legs.append("programs")
